@@ -149,6 +149,9 @@ def validate(ctx, mods: list[str], ex: Exploration, per_fn: int = 60) -> None:
             # the site expression, compiled from /repo's current source, is the Python original
             import sites as sitemod
             fd, seg = sitemod.build(translate_spec_path(site["file"]).read_text(), sn, site, f"{site['file']}::{sn}")
+            # names the source module itself can see (imported helpers such as `trace_nearest`, `interp_linear`, `exp`)
+            for k_, v_ in vars(importlib.import_module(site["file"][:-3].replace("/", "."))).items():
+                senv.setdefault(k_, v_)
             fnp = tuple(p for p, k in site["params"].items() if k in ("fn", "fn2", "fnb"))
             entries.append((sn, sitemod.compile_site(fd, senv, fnp), list(site["params"]), site["params"], seg))
         for fn, f, order, params, seg in entries:
@@ -170,6 +173,7 @@ def validate(ctx, mods: list[str], ex: Exploration, per_fn: int = 60) -> None:
                     py = show(r)
                 except Exception as e:  # the Python original rejects this input: skip (domain)
                     ex.count("translator_validation", "python-raised")
+                    ex.count("translator_validation_raised", f"{fn}:{type(e).__name__}")
                     continue
                 lines.append(f"{m} {fn} " + " ".join(wire))
                 meta.append((m, fn, wire, py, exact))
